@@ -16,6 +16,7 @@ import (
 	"fmt"
 	"strings"
 
+	"github.com/blinklabs-io/gouroboros/protocol"
 	"github.com/blinklabs-io/gouroboros/protocol/blockfetch"
 	"verif/e1/protos"
 )
@@ -27,11 +28,31 @@ type model struct {
 	enc           [][]byte          // wire bytes of every alphabet letter
 	byBytes       map[string]string // wire bytes -> label
 	localIsClient bool
-	last          bool // responder policy
+	last          bool         // responder policy
+	hidden        map[int]bool // letters used only by hand-picked histories (large blocks), not by the enumerations
+}
+
+// bigSizes are the encoded sizes of the large Block letters of the block-fetch server
+// (around one and two maximal segment payloads of 65535 bytes).
+var bigSizes = []int{65533, 65534, 65535, 65536, 131068, 131070}
+
+// sizedBlock returns a block-fetch Block message whose encoding is exactly n bytes long.
+func sizedBlock(n int) protocol.Message {
+	for l := n - 16; l < n; l++ {
+		body := make([]byte, l)
+		for i := range body {
+			body[i] = byte(i*13 + n)
+		}
+		msg := blockfetch.NewMsgBlock(body)
+		if b, err := protos.Encode(msg); err == nil && len(b) == n {
+			return msg
+		}
+	}
+	panic(fmt.Sprintf("c12: no Block of %d bytes", n))
 }
 
 func newModel(p *protos.Proto, localIsClient, last bool) *model {
-	m := &model{id: p.ID(), spec: p.Spec, alpha: append([]protos.Msg(nil), p.Alphabet...), byBytes: map[string]string{}, localIsClient: localIsClient, last: last}
+	m := &model{id: p.ID(), spec: p.Spec, alpha: append([]protos.Msg(nil), p.Alphabet...), byBytes: map[string]string{}, localIsClient: localIsClient, last: last, hidden: map[int]bool{}}
 	if p.Name == "block-fetch" && !localIsClient {
 		// a streaming server sends blocks of different contents: a second Block letter whose
 		// encoding has the length of the first and different bytes
@@ -40,6 +61,10 @@ func newModel(p *protos.Proto, localIsClient, last bool) *model {
 				m.alpha = append(m.alpha, protos.Msg{Label: "Block{2}", Spec: "Block", FromClient: false,
 					Msg: blockfetch.NewMsgBlock([]byte{0x82, 0x82, 0x05, 0x06, 0x07})})
 			}
+		}
+		for _, n := range bigSizes {
+			m.hidden[len(m.alpha)] = true
+			m.alpha = append(m.alpha, protos.Msg{Label: fmt.Sprintf("Block{%d}", n), Spec: "Block", FromClient: false, Msg: sizedBlock(n)})
 		}
 	}
 	for _, a := range m.alpha {
@@ -67,6 +92,9 @@ func (m *model) label(b []byte) string {
 	if l, ok := m.byBytes[string(b)]; ok {
 		return l
 	}
+	if len(b) > 24 {
+		return fmt.Sprintf("?%x..(%d-bytes)", b[:24], len(b))
+	}
 	return fmt.Sprintf("?%x", b)
 }
 
@@ -84,7 +112,7 @@ func (m *model) letter(label string) int {
 func (m *model) localLetters() []int {
 	var out []int
 	for i, a := range m.alpha {
-		if !a.Unknown && a.FromClient == m.localIsClient {
+		if !a.Unknown && a.FromClient == m.localIsClient && !m.hidden[i] {
 			out = append(out, i)
 		}
 	}
@@ -281,6 +309,9 @@ func (m *model) conforming(maxLen int) [][]int {
 func (m *model) illegalAfter(prefix []int) []int {
 	var out []int
 	for i := range m.alpha {
+		if m.hidden[i] {
+			continue
+		}
 		q := append(append([]int(nil), prefix...), i)
 		if m.run(q).badAt == len(prefix) {
 			out = append(out, i)
